@@ -276,6 +276,60 @@ func (p *Prog) virtualSites(fn *ssa.Function, stop map[*ssa.Function]bool) []vsi
 	return out
 }
 
+// isLocalClosure: an anonymous function that its parent only calls directly (a local helper
+// closure), as opposed to one handed to another function (wrapper units, iterator callbacks).
+func (p *Prog) isLocalClosure(fn *ssa.Function) bool {
+	par := fn.Parent()
+	if par == nil {
+		return false
+	}
+	found := false
+	for _, b := range par.Blocks {
+		for _, in := range b.Instrs {
+			mc, ok := in.(*ssa.MakeClosure)
+			if !ok || mc.Fn != fn {
+				continue
+			}
+			found = true
+			if mc.Referrers() == nil {
+				return false
+			}
+			for _, ref := range *mc.Referrers() {
+				ci, isCall := ref.(ssa.CallInstruction)
+				if !isCall || ci.Common().Value != ssa.Value(mc) {
+					return false
+				}
+			}
+		}
+	}
+	return found
+}
+
+// onlyCalledFrom: fn is a same-package helper whose every call site lies in one of the named
+// functions (or in helpers for which the same holds, three levels).
+func (p *Prog) onlyCalledFrom(fn *ssa.Function, names map[string]bool, depth int) bool {
+	if depth > 3 {
+		return false
+	}
+	sites := p.CallSitesOf(fn)
+	if len(sites) == 0 {
+		return false
+	}
+	for _, cs := range sites {
+		par := cs.Parent()
+		if par == nil || fnPkgPath(par) != fnPkgPath(fn) {
+			return false
+		}
+		if names[fname(par)] {
+			continue
+		}
+		if !p.onlyCalledFrom(par, names, depth+1) {
+			return false
+		}
+	}
+	return true
+}
+
 func (p *Prog) handlerSet() map[*ssa.Function]bool {
 	if p.handlerSetMemo != nil {
 		return p.handlerSetMemo
